@@ -43,21 +43,23 @@ static double boundOf (const std::string& what)
         {"setRotation-unit", 8},          // | |q| - 1 |
         {"setRotation-carries", 16},      // rotateVector(q, from^) vs to^
         {"rotationMatrix-carries", 16},   // from^ * rotationMatrix vs to^
-        {"setRotation-axis", 64},         // axis stays orthogonal to from and to (angle not within 1e-3 of 0 or pi)
+        {"setRotation-opposite-lattice", 16}, // to = -m * from on the integer lattice (exactly opposite): unit and carried
+        {"setRotation-axis", 8},          // axis stays orthogonal to from and to (angle not within 1e-3 of 0 or pi)
         {"slerp-unit", 8},
-        {"slerp-angle-linear", 32},       // |angle(q1, slerp(t)) - |t| theta| (scale 1/(pi - theta) beyond 90 degrees)
-        {"slerp-in-plane", 32},           // component of slerp(t) orthogonal to span(q1,q2)
+        {"slerp-angle-linear", 16},       // |angle(q1, slerp(t)) - |t| theta| (scale 1/(pi - theta) beyond 90 degrees)
+        {"slerp-in-plane", 8},            // component of slerp(t) orthogonal to span(q1,q2)
         {"slerp-endpoints", 8},
-        {"slerpShortestArc-angle", 32},   // angle(q1, r(t)) = t * theta', theta' <= pi/2
-        {"squad-keys", 16},
-        {"spline-keys", 64},
+        {"slerpShortestArc-angle", 8},    // angle(q1, r(t)) = t * theta', theta' <= pi/2
+        {"squad-keys", 8},
+        {"spline-keys", 8},
         {"spline-tangent", 1},            // double only: one-sided 2nd-order finite differences at the joint, scale = 1e-5
     };
     auto it = B.find (what);
     return it == B.end () ? 0 : it->second;
 }
 
-template <class T> static void check (const std::string& what0, L err, L scale, const std::string& in)
+// a failing line carries a stable key (class of input, not the input itself): "<check>:<type>" unless given
+template <class T> static void check (const std::string& what0, L err, L scale, const std::string& in, const std::string& key = "")
 {
     std::string what = what0 + (sizeof (T) == 4 ? ":float" : ":double");
     ++evals;
@@ -71,7 +73,8 @@ template <class T> static void check (const std::string& what0, L err, L scale, 
     if (!(ratio <= c))
     {
         ++failures;
-        if (failures <= 40) printf ("RESIDUE-FAIL %s err/(eps*scale)=%.4g > %g in=%s\n", what.c_str (), ratio, c, in.c_str ());
+        static std::map<std::string, int> printed;
+        if (++printed[what + (key.empty () ? what0 : key)] <= 6) printf ("RESIDUE-FAIL %s key=%s err/(eps*scale)=%.4g > %g in=%s\n", what.c_str (), (key.empty () ? what0 : key).c_str (), ratio, c, in.c_str ());
     }
 }
 
@@ -285,21 +288,49 @@ template <class T> static void setRotationChecks (int i)
     std::string in = std::string (cn) + " from=" + showV (from) + " to=" + showV (to);
     LQ ql = toL (q);
     bool nan = !(ndot (ql, ql) == ndot (ql, ql));
-    check<T> ("setRotation-unit", nan ? (L) INFINITY : fabsl (sqrtl (ndot (ql, ql)) - 1), 1, in);
-    if (nan) return;
+    // the actual angle between the (rounded) inputs; "antipodal within rounding": pi - angle < 64 eps
+    L actual = 2 * atan2l (vdist (fh, thh), vlen (LV{fh.x + thh.x, fh.y + thh.y, fh.z + thh.z}));
+    bool antip = PI - actual < 64 * (L) std::numeric_limits<T>::epsilon ();
+    if (antip) hits["direction-pair:antipodal-within-64-eps"]++;
+    std::string key = antip ? "setRotation:opposite-within-rounding" : "";
+    check<T> ("setRotation-unit", nan ? (L) INFINITY : fabsl (sqrtl (ndot (ql, ql)) - 1), 1, in, key);
+    if (nan || ndot (ql, ql) == 0) return;
     LQ qn = lnorm (ql);
-    check<T> ("setRotation-carries", vdist (lrot (qn, fh), thh), 1, in);
+    check<T> ("setRotation-carries", vdist (lrot (qn, fh), thh), 1, in, key);
     Matrix44<T> M = rotationMatrix (from, to);
     Vec3<T> fT ((T) fh.x, (T) fh.y, (T) fh.z), r;
     M.multDirMatrix (fT, r);
-    check<T> ("rotationMatrix-carries", vdist (toLV (r), thh), 1, in);
+    check<T> ("rotationMatrix-carries", vdist (toLV (r), thh), 1, in, key);
     // axis orthogonal to both directions (where the axis is well defined)
-    L actual = 2 * atan2l (vdist (fh, thh), vlen (LV{fh.x + thh.x, fh.y + thh.y, fh.z + thh.z}));
     if (actual > 1e-3L && actual < PI - 1e-3L)
     {
         LV ax = vnorm (LV{qn.x, qn.y, qn.z});
         L e = std::max (fabsl (ax.x * fh.x + ax.y * fh.y + ax.z * fh.z), fabsl (ax.x * thh.x + ax.y * thh.y + ax.z * thh.z));
         check<T> ("setRotation-axis", e, 1 / sinl (actual), in);
+    }
+}
+
+// deterministic: exactly opposite vectors on the integer lattice, to = -m * from (exact in T), m = 1..13
+template <class T> static void oppositeLattice ()
+{
+    for (int a = 0; a <= 6; ++a) for (int b = 0; b <= 6; ++b) for (int c = 0; c <= 6; ++c)
+    {
+        if (!a && !b && !c) continue;
+        for (int m = 1; m <= 13; ++m)
+        {
+            Vec3<T> from ((T) a, (T) b, (T) c), to = from * (T) -m;
+            Quat<T> q; q.setRotation (from, to);
+            LV fh = vnorm (toLV (from)), thh = vnorm (toLV (to));
+            LQ ql = toL (q);
+            L n2 = ndot (ql, ql);
+            L err = !(n2 == n2) || n2 == 0 ? (L) INFINITY : std::max (fabsl (sqrtl (n2) - 1), vdist (lrot (lnorm (ql), fh), thh));
+            if (!(n2 == n2)) hits["opposite-lattice:NaN"]++;
+            else if (n2 == 0) hits["opposite-lattice:ZERO-quaternion-returned"]++;
+            else if (vdist (lrot (lnorm (ql), fh), thh) > 1) hits["opposite-lattice:not-carried(error>1)"]++;
+            else hits["opposite-lattice:ok"]++;
+            char bb[64]; snprintf (bb, 64, " m=%d |q|^2=%.3g", -m, (double) n2);
+            check<T> ("setRotation-opposite-lattice", err, 1, "from=" + showV (from) + " to=" + showV (to) + bb, "setRotation:opposite-within-rounding");
+        }
     }
 }
 
@@ -424,6 +455,7 @@ template <class T> static void splineChecks ()
 
 template <class T> static void runAll (int n)
 {
+    oppositeLattice<T> ();
     for (int i = 0; i < n; ++i)
     {
         unitQuatChecks<T> (i);
